@@ -1,3 +1,5 @@
 import transport as T
 def run(chk):
     T.run(chk)
+def replay(chk, path):
+    T.replay(chk, path)
